@@ -288,6 +288,11 @@ func controlExprs(info *types.Info, fd *ast.FuncDecl, obj types.Object) []ast.Ex
 			case *ast.SwitchStmt:
 				if a.Tag != nil {
 					out = append(out, a.Tag)
+				} else {
+					// a tagless switch is an if-chain: every case expression takes part in the choice
+					for _, cl := range a.Body.List {
+						out = append(out, cl.(*ast.CaseClause).List...)
+					}
 				}
 			case *ast.TypeSwitchStmt:
 				switch x := a.Assign.(type) {
